@@ -1,5 +1,6 @@
 import PcVerif.Util.Proto
 import PcVerif.Spec.Geometry
+import PcVerif.Model.VttPos
 namespace PcVerif.Ops
 open Proto Geo
 
@@ -79,6 +80,15 @@ def geoOps : List (String × Handler) := [
   ("geo.fit", fun a => match a with | [l] => encExc encLayout (decLayout l).fit | _ => "bad-args"),
   ("geo.relfit", fun a => match a with
     | [r, f, w, h, l] => encExc (encOptWith encLayout) (relativizeAndFit (decBool r) (decBool f) (decNat w) (decNat h) (decOptWith decLayout l))
+    | _ => "bad-args")
+]
+end PcVerif.Ops
+
+namespace PcVerif.Ops
+open Proto Geo
+def vttPosOps : List (String × Handler) := [
+  ("vtt.settings", fun a => match a with
+    | [r, f, w, h, l] => encExc encStr (VttPos.convert (decBool r) (decBool f) (decNat w) (decNat h) (decOptWith decLayout l))
     | _ => "bad-args")
 ]
 end PcVerif.Ops
